@@ -516,9 +516,9 @@ def value_parse_datetime(text):
 
     return None
 
-_R_DATE = re.compile(r'^(?P<year>\d{4})-(?P<month>\d{2})-(?P<day>\d{2})$')
-_R_DATETIME = re.compile(r'^\d{4}-\d{2}-\d{2}T\d{2}:\d{2}:\d{2}(?:\.\d{1,6})?(?:Z|[+-]\d{2}:\d{2})$')
-_R_DATETIME_ZULU = re.compile(r'Z$')
+_R_DATE = re.compile(r'^(?P<year>\d{4})-(?P<month>\d{2})-(?P<day>\d{2})\Z', re.ASCII)
+_R_DATETIME = re.compile(r'^\d{4}-\d{2}-\d{2}T\d{2}:\d{2}:\d{2}(?:\.\d{1,6})?(?:Z|[+-]\d{2}:[0-5]\d)\Z', re.ASCII)
+_R_DATETIME_ZULU = re.compile(r'Z\Z')
 
 
 def value_normalize_datetime(value):
